@@ -39,6 +39,24 @@ MODULE_BLOCK = (
     "        finally:\n"
     "            context.write('>')\n"
     "    return decorate\n"
+    "def rz(s):\n"
+    "    import builtins\n"
+    "    b = getattr(builtins, '_verif_boom', None)\n"
+    "    if b is not None and b[0] == 'filter':\n        raise b[1]\n"
+    "    return 'rz(' + s + ')'\n"
+    "def rdeco(fn):\n"
+    "    def decorate(context, *args, **kw):\n"
+    "        import builtins\n"
+    "        b = getattr(builtins, '_verif_boom', None)\n"
+    "        context.write('rdeco<')\n"
+    "        if b is not None and b[0] == 'deco-before':\n            raise b[1]\n"
+    "        try:\n"
+    "            r = fn(*args, **kw)\n"
+    "            if b is not None and b[0] == 'deco-after':\n                raise b[1]\n"
+    "            return r\n"
+    "        finally:\n"
+    "            context.write('>')\n"
+    "    return decorate\n"
     "%>"
 )
 
@@ -59,6 +77,8 @@ def val_src(v):
         return v[1]
     if v[0] == "call":
         return "%s()" % v[1]
+    if v[0] == "rf":
+        return "raiser()"
     raise ValueError(v)
 
 
@@ -149,12 +169,12 @@ def emit_nodes(nodes, out):
         elif k == "TRY":
             out.append("\n% try:\n")
             emit_nodes(n[1], out)
-            out.append("\n% except Boom as e_:\n")
+            out.append("\n% except Exception as e_:\n")
             out.append("[caught ${str(e_)}]")
             emit_nodes(n[2], out)
             out.append("\n% endtry\n")
         elif k == "RAISE":
-            out.append("<%% raise Boom(%r) %%>" % n[1])
+            out.append("<%\nif armed:\n    raise boom\n%>")
         elif k == "TF":
             out.append('<%block filter="fz">')
             emit_nodes(n[1], out)
@@ -163,6 +183,12 @@ def emit_nodes(nodes, out):
             out.append('<%text filter="gz">' + n[1] + "</%text>")
         elif k == "INC":
             out.append('<%%include file="%s"/>' % n[1])
+        elif k == "LI":
+            out.append("${loop.index}")
+        elif k == "NB":
+            out.append("${next.body()}")
+        elif k == "RF":
+            out.append("${raiser()}")
         else:
             raise ValueError(n)
 
@@ -174,7 +200,7 @@ def emit_def(d, out):
     if d.get("filter"):
         attrs += ' filter="%s"' % d["filter"]
     if d.get("decorator"):
-        attrs += ' decorator="deco"'
+        attrs += ' decorator="%s"' % ("deco" if d["decorator"] is True else d["decorator"])
     if d.get("cached"):
         attrs += ' cached="True" cache_key="%s"' % d["cached"]
     out.append('<%%def name="%s(%s)"%s>' % (d["name"], sig_src(d["sig"]), attrs))
@@ -200,8 +226,11 @@ class Caller:
 
 
 class Model:
-    def __init__(self, doc, context, includes=None, buffer_filters=()):
+    def __init__(self, doc, context, includes=None, buffer_filters=(), boom_mode=None, include_handler=False, child=None):
         self.doc = doc
+        self.boom_mode = boom_mode      # None | filter | deco-before | deco-after: where rz / rdeco raise
+        self.include_handler = include_handler
+        self.child = child              # (doc, includes) of the inheriting template, for ("NB",)
         self.context = dict(context)
         self.buffers = [[]]
         self.defs = {d["name"]: d for d in doc["defs"]}
@@ -240,7 +269,7 @@ class Model:
         for d in reversed(scope["defs"]):
             if name in d:
                 return d[name]
-        return (self.defs[name], {"vars": [], "defs": [], "caller": None})
+        return (self.defs[name], {"vars": [], "defs": [], "caller": None, "loops": []})
 
     def value(self, v, scope):
         if v[0] == "lit":
@@ -251,6 +280,11 @@ class Model:
             return self.call_def(v[1], [], {}, scope)
         if v[0] == "mix":
             return v[1] + str(self.lookup(scope, v[2])) + v[3]
+        if v[0] == "rf":
+            if self.context.get("armed"):
+                self.events.add("raised")
+                raise self.context["boom"]
+            return "rf"
         raise ValueError(v)
 
     def eval_args(self, args, scope):
@@ -273,7 +307,7 @@ class Model:
         ba.apply_defaults()
         local = dict(ba.arguments)
         nested = {nd["name"]: None for nd in d.get("nested", [])}
-        scope = {"vars": defscope["vars"] + [local], "defs": defscope["defs"] + [nested], "caller": caller}
+        scope = {"vars": defscope["vars"] + [local], "defs": defscope["defs"] + [nested], "caller": caller, "loops": []}
         for nd in d.get("nested", []):
             nested[nd["name"]] = (nd, scope)
         self.events.add("def")
@@ -295,6 +329,19 @@ class Model:
                 self.cache[key] = content
             self.write(content)
             return ""
+        if d.get("decorator") == "rdeco":
+            self.write("rdeco<")
+            if self.boom_mode == "deco-before" and self.context.get("armed"):
+                self.events.add("raised")
+                raise self.context["boom"]
+            try:
+                r = self.plain(d, run_body)
+                if self.boom_mode == "deco-after" and self.context.get("armed"):
+                    self.events.add("raised")
+                    raise self.context["boom"]
+                return r
+            finally:
+                self.write(">")
         if d.get("decorator"):
             self.write("deco<")
             try:
@@ -312,7 +359,12 @@ class Model:
                 ok = True
             finally:
                 content = self.pop()  # abandoned when an exception passes through
-            if d.get("filter"):
+            if d.get("filter") == "rz":
+                if self.boom_mode == "filter" and self.context.get("armed"):
+                    self.events.add("raised")
+                    raise self.context["boom"]
+                content = "rz(" + content + ")"
+            elif d.get("filter"):
                 content = self.apply([d["filter"]], content)
             if d.get("buffered"):
                 self.events.add("buffered")
@@ -355,14 +407,14 @@ class Model:
                 _, name, args, bodyargs, body, nested, style = n
                 self.events.add("ccall")
                 cdefs = {nd["name"]: None for nd in nested}
-                cscope = {"vars": scope["vars"], "defs": scope["defs"] + [cdefs], "caller": scope["caller"]}
+                cscope = {"vars": scope["vars"], "defs": scope["defs"] + [cdefs], "caller": scope["caller"], "loops": scope["loops"]}
                 for nd in nested:
                     cdefs[nd["name"]] = (nd, cscope)
 
                 def body_fn(_body=body, _ba=bodyargs, _sc=cscope, **passed):
                     sig = inspect.signature(eval("lambda %s: None" % ", ".join(_ba)))
                     b = sig.bind(**passed)
-                    sc = {"vars": _sc["vars"] + [dict(b.arguments)], "defs": _sc["defs"], "caller": _sc["caller"]}
+                    sc = {"vars": _sc["vars"] + [dict(b.arguments)], "defs": _sc["defs"], "caller": _sc["caller"], "loops": _sc["loops"]}
                     self.run(_body, sc)
                     return ""
 
@@ -388,8 +440,8 @@ class Model:
                     self.write("\n")
             elif k == "FOR":
                 self.write("\n")
-                for i in "abc"[: n[2]]:
-                    sc = {"vars": scope["vars"] + [{n[1]: i}], "defs": scope["defs"], "caller": scope["caller"]}
+                for idx, i in enumerate("abc"[: n[2]]):
+                    sc = {"vars": scope["vars"] + [{n[1]: i}], "defs": scope["defs"], "caller": scope["caller"], "loops": scope["loops"] + [idx]}
                     self.run(n[3], sc)
                     self.write("\n")
             elif k == "TRY":
@@ -398,15 +450,34 @@ class Model:
                 try:
                     self.run(n[1], scope)
                     self.write("\n")
-                except Boom as e:
+                except Exception as e:
                     assert len(self.buffers) == depth
                     self.events.add("handled")
                     self.write("[caught %s]" % e)
                     self.run(n[2], scope)
                     self.write("\n")
             elif k == "RAISE":
-                self.events.add("raised")
-                raise Boom(n[1])
+                if self.context.get("armed"):
+                    self.events.add("raised")
+                    raise self.context["boom"]
+            elif k == "RF":
+                if self.context.get("armed"):
+                    self.events.add("raised")
+                    raise self.context["boom"]
+                self.write("rf")
+            elif k == "LI":
+                self.write(str(scope["loops"][-1]))
+            elif k == "NB":
+                cdoc = self.child
+                sub = Model(cdoc, self.context, self.includes, self.buffer_filters, self.boom_mode, self.include_handler)
+                sub.buffers = self.buffers
+                sub.events = self.events
+                sub.cache = self.cache
+                sub.steps = self.steps
+                try:
+                    sub.run(cdoc["body"], {"vars": [], "defs": [], "caller": None, "loops": []})
+                finally:
+                    self.steps = sub.steps
             elif k == "TF":
                 self.push()
                 try:
@@ -417,17 +488,25 @@ class Model:
             elif k == "TX":
                 self.write("gz(" + n[1] + ")")
             elif k == "INC":
-                sub = Model(self.includes[n[1]], self.context, self.includes, self.buffer_filters)
+                sub = Model(self.includes[n[1]], self.context, self.includes, self.buffer_filters, self.boom_mode, self.include_handler)
+                sub.cache = self.cache
                 sub.buffers = self.buffers
                 sub.events = self.events
                 sub.steps = self.steps
-                sub.run(sub.doc["body"], {"vars": [], "defs": [], "caller": None})
+                try:
+                    sub.run(sub.doc["body"], {"vars": [], "defs": [], "caller": None, "loops": []})
+                except Exception:
+                    self.steps = sub.steps
+                    if not self.include_handler:
+                        raise
+                    self.events.add("include-handled")
+                self.steps = sub.steps
             else:
                 raise ValueError(n)
 
     def render(self):
         """-> ('out', text) | ('exc', exception)"""
-        scope = {"vars": [], "defs": [], "caller": None}
+        scope = {"vars": [], "defs": [], "caller": None, "loops": []}
         try:
             self.run(self.doc["body"], scope)
         except Exception as e:
